@@ -72,6 +72,12 @@ def main():
             t0 = time.time()
             rc, out = sh(f"{VERIF}/check {c} --tier {a.tier}", cwd=VERIF, env=dict(os.environ, PRTPY_REPO=wt), timeout=7200)
             lines = [l for l in out.split("\n") if l.startswith("VIOLATION") or l.startswith("# ")]
+            # keep the replay file(s) of a detection next to the seed (input for the regression corpus)
+            if rc != 0:
+                for l in lines:
+                    mm = re.search(r"replay=(\S+)", l)
+                    if mm and os.path.exists(mm.group(1)):
+                        shutil.copy(mm.group(1), os.path.join(seed, f"replay_{c}_{os.path.basename(mm.group(1))}"))
             det[c] = {"rc": rc, "violation": any(l.startswith("VIOLATION") for l in lines), "lines": [l[:400] for l in lines][:4], "tier": a.tier, "wall_s": round(time.time() - t0, 1)}
             print(c, "rc", rc, "|", " ".join(lines)[:300])
         meta["detected_by"] = det
